@@ -151,6 +151,11 @@ def run(ctx, R, tier):
                 badfmt.append((fn, n))
     R.check(not badfmt, "C19-R3", "printer|constant-format-strings", "the text form is built with constant format strings only (URI data is never part of a format string)", loc.loc(),
             "`%s`: a part of the URI (e.g. a host containing '%%') is interpreted as a format string, so printing fails or silently changes the text" % (unparse(badfmt[0][1]) if badfmt else ""))
+    TRANSFORMS = {"replace", "lower", "upper", "strip", "lstrip", "rstrip", "casefold", "title", "capitalize", "encode", "quote", "quote_plus", "translate", "swapcase"}
+    tr = [n for fn in (loc, st_) for n in walk_no_nested(fn.node) if isinstance(n, ast.Call) and isinstance(n.func, ast.Attribute) and n.func.attr in TRANSFORMS and
+          any(isinstance(x, ast.Attribute) and isinstance(x.value, ast.Name) and x.value.id == "self" for x in ast.walk(n.func.value))]
+    R.check(not tr, "C19-R3", "printer|fields-verbatim", "the printer emits the fields as they are (no escaping / case / whitespace transformation the parser does not undo)", loc.loc(),
+            "`%s` rewrites a field while printing and the parser does not reverse it: the printed URI parses to a different URI" % (unparse(tr[0]) if tr else ""))
     ints = [n for n in walk_no_nested(pl.node) if isinstance(n, ast.Call) and isinstance(n.func, ast.Name) and n.func.id == "int" and "port" in unparse(n)]
     R.check(bool(ints), "C19-R3", "integer-port", "the port is converted with int() by the parser", pl.loc(), "the parser no longer converts the port with int()")
 
@@ -201,7 +206,22 @@ def run(ctx, R, tier):
     reg = ctx.fn("Pyro5.nameserver.NameServer.register")
     okr = any(isinstance(n, ast.Assign) and unparse(n.targets[0]) == reg.params[2] and unparse(n.value) == "str(%s)" % reg.params[2] for n in walk_no_nested(reg.node)) and \
         any(isinstance(n, ast.Call) and ctx.resolves_to_object(n.func, reg, U) for n in walk_no_nested(reg.node))
-    R.check(okr, "C19-R5", "NameServer.register|stores-text", "URI objects are stored as str(uri); strings are validated by parsing", reg.loc(), "register no longer stores the URI's text form")
+    urip = reg.params[2]
+    rrd = ctx.rd(reg)
+    rcfg2 = ctx.cfg(reg)
+    store = [st for st, t, k in stores_in(reg.node) if k == "assign" and isinstance(t, ast.Subscript) and unparse(t.value) == "self.storage"]
+    verb = bool(store)
+    for st in store:
+        for n in rcfg2.nodes_for(st):
+            for d in rrd.reaching(n, urip):
+                if d.kind == "param":
+                    continue
+                if d.kind == "assign" and unparse(d.value) == "str(%s)" % urip:
+                    continue
+                verb = False
+    okr = okr and verb
+    R.check(okr, "C19-R5", "NameServer.register|stores-text", "URI objects are stored as str(uri); strings are validated by parsing and stored exactly as given", reg.loc(),
+            "register no longer stores the URI's text form verbatim (the string is rewritten before it is stored)")
     lk = ctx.fn("Pyro5.nameserver.NameServer.lookup")
     okl = any(isinstance(n, ast.Assign) and isinstance(n.value, ast.Call) and ctx.resolves_to_object(n.value.func, lk, U) for n in walk_no_nested(lk.node))
     R.check(okl, "C19-R5", "NameServer.lookup|reparses", "lookup re-parses the stored text with core.URI", lk.loc(), "lookup no longer returns core.URI(stored text)")
